@@ -121,6 +121,26 @@ namespace c09
         static bool is_container() { return true; }
     };
 
+    // a user type that writes a fixed-size array as one raw block through igris::archive::data<T> (no count on the wire)
+    struct S5
+    {
+        int16_t samples[3] = {0, 0, 0};
+        uint8_t gain = 0;
+        template <class R> void reflect(R &r)
+        {
+            igris::archive::data<int16_t> blk(samples, 3);
+            r & blk;
+            r & gain;
+        }
+    };
+    template <> struct Ref<S5>
+    {
+        static S5 gen(kit::Rng &r, GenCfg &c) { S5 s; for (auto &x : s.samples) x = Ref<int16_t>::gen(r, c); s.gain = Ref<uint8_t>::gen(r, c); return s; }
+        static void enc(const S5 &v, std::string &o) { for (auto x : v.samples) Ref<int16_t>::enc(x, o); Ref<uint8_t>::enc(v.gain, o); }
+        static bool eq(const S5 &a, const S5 &b) { return memcmp(a.samples, b.samples, sizeof a.samples) == 0 && a.gain == b.gain; }
+        static bool is_container() { return false; }
+    };
+
     struct P1
     {
         static const char *apiname() { return "archive"; }
@@ -184,6 +204,12 @@ namespace c09
             T viaconv = igris::deserialize<T>(igris::buffer(p, left));
             igris::deserialize(r, v);
             if (!Ref<T>::eq(v, viaconv)) kit::violate("C09/readers-disagree@archive", "igris::deserialize<T>(buffer) and the archive reader decode different values from the same bytes");
+            T viastr = igris::deserialize<T>(std::string(p, left));
+            igris::archive::binary_buffer_reader again(igris::buffer(p, left)); // the reader's other constructor
+            T v2 = T();
+            igris::deserialize(again, v2);
+            if (!Ref<T>::eq(v, viastr) || !Ref<T>::eq(v, v2) || again.ptr != r.ptr)
+                kit::violate("C09/readers-disagree@archive", "igris::deserialize<T>(string) / a reader built from an igris::buffer decode differently from the archive reader");
         }
     };
 
@@ -235,6 +261,9 @@ namespace c09
         T1(B2, 1, false);
         T1(std::vector<B1>, 2, true);
         T1(S4, 1, true);
+        // (new types are appended: the golden file addresses types by index)
+        T1(S5, 1, false);
+        T1(std::vector<S5>, 2, true);
 #undef T1
         return a;
     }
